@@ -150,3 +150,11 @@ Definition check_margins (tb : margin_tables) (shape_l shape_r : Z * Z) (mstep0 
       end
     else Some g1
   end.
+
+(* PandoraMachine.check_conf as a machine holding the margins [g] (left by whatever it checked
+   before) and the step [mstep0] executes it: the first round starts with
+   `self.margins = GlobalMargins()` iff [resets] (Gen/Margins.v: gen_check_resets_margins, read
+   from the source of check_conf at every run). *)
+Definition machine_check_margins (resets : bool) (tb : margin_tables) (shape_l shape_r : Z * Z) (mstep0 : Z)
+           (g : gmargins) (p : list mstep) : option gmargins :=
+  check_margins tb shape_l shape_r mstep0 (if resets then g0 else g) p.
